@@ -10,12 +10,12 @@ package hfs
 // in-process (if alive) and after a restart from the directory left behind.
 
 import (
-	"sync/atomic"
 	"context"
 	"encoding/json"
 	"fmt"
 	"os"
 	"sort"
+	"sync/atomic"
 	"testing"
 	"time"
 
